@@ -163,6 +163,7 @@ type v11Sim struct {
 	lastSec  int64 // second of the last congestion event (-1: none yet)
 
 	waits, raises, bypass, events, cwndLimited, clipped  int
+	overflowIdles, overflowChecks                        int
 	sawClamp, sawCompensate, sawFew, sawIdle, ceilCorner bool
 }
 
@@ -220,6 +221,18 @@ func (s *v11Sim) check() (wake int64, limited bool) {
 	}
 	w := b.TimeUntilSend(congestion.ByteCount(s.inflight))
 	s.calls = append(s.calls, v11Call{"TimeUntilSend", s.now, int64(w), 0, 0})
+	if bw := int64(float64(s.bps) / b.ackRate); s.lastSent != 0 && uint64(s.now-s.lastSent) >= (uint64(1)<<62)/uint64(bw) {
+		// beyond the statement's 63-bit range: progress only (no rate bound, no exact wake-up time)
+		s.overflowChecks++
+		g := s.mds*1000000000/bw + 1000000
+		if int64(w) > s.now && b.HasPacingBudget(w) {
+			return int64(w), true
+		}
+		if !b.HasPacingBudget(monotime.Time(s.now + g)) {
+			s.fail("idle for %d ns at %d B/s: HasPacingBudget(now)=false, TimeUntilSend()=%d is not a usable future time and there is still no budget %d ns later: the sender can never send again", s.now-s.lastSent, bw, int64(w), g)
+		}
+		return s.now + g, true
+	}
 	if w.IsZero() {
 		s.fail("HasPacingBudget(now)=false but TimeUntilSend()=0: quic-go treats 0 as 'send immediately' and spins")
 	}
@@ -385,7 +398,7 @@ func v11RunCase(rt *rapid.T, st *vStats) {
 		return rapid.SampledFrom([]float64{0, 0, 0.01, 0.05, 0.1, 0.19, 0.2, 0.21, 0.3, 0.6, 1}).Draw(rt, "lossFrac")
 	}
 	for i := 0; i < nops; i++ {
-		k := rapid.IntRange(0, 11).Draw(rt, "op")
+		k := rapid.IntRange(0, 12).Draw(rt, "op")
 		kinds = append(kinds, byte('a'+k))
 		switch k {
 		case 0: // advance, 1 us .. 10 s
@@ -449,6 +462,17 @@ func v11RunCase(rt *rapid.T, st *vStats) {
 				s.sendPacket(rapid.Int64Range(25, 70).Draw(rt, "ackOnlySize"), false, false)
 			}
 			s.bypass++
+		case 12: // idle so long that rate x idle leaves the 63-bit range; afterwards only progress is required
+			if s.lastSent == 0 || rapid.IntRange(0, 5).Draw(rt, "overflowIdle") != 0 {
+				break
+			}
+			f := rapid.SampledFrom([]float64{0.3, 0.6, 1.02, 1.5, 1.98, 2.6, 3.4, 17.3}).Draw(rt, "overflowFactor")
+			target := s.lastSent + int64(f*9.223372036854775807e18/(float64(s.bps)/s.b.ackRate))
+			if target > s.now && target-s.lastSent < 3e17 {
+				s.now = target
+				s.overflowIdles++
+				s.sawIdle = true
+			}
 		case 11: // backlog: long send loop that follows every announced wake-up
 			s.sendLoop(rapid.IntRange(20, 200).Draw(rt, "n"), 60, true)
 		}
@@ -477,6 +501,8 @@ func v11RunCase(rt *rapid.T, st *vStats) {
 	add(s.cwndLimited > 0, "cwndLimited")
 	add(s.bypass > 0, "bypassSend")
 	add(s.clipped > 0, "advanceClippedTo62bit")
+	add(s.overflowIdles > 0, "idleBeyond62bit")
+	add(s.overflowChecks > 0, "noBudgetBeyond62bit(progressRule)")
 	add(bps < 1280000, "bps<1.28MB/s")
 	nt := (s.sawClamp || s.sawCompensate) && s.waits > 0
 	st.Case(nt, fmt.Sprintf("%d/%d/%s", bps, s.now, kinds), cls, func() string {
